@@ -107,14 +107,41 @@ Section Shape.
           end
       end.
 
-    (* one branch of an externally tagged oneOf against the variants *)
-    Definition branch_sh (vs : list variant) (deny : bool) (b : schema) : Prop :=
+    (* the members of a struct variant of an internally tagged enum: the properties other than the tag *)
+    Definition struct_sh_skip (t : ustring) (props : list (ustring * schema)) (req : list ustring) (ps : list prop) : Prop :=
+      NoDup (wire_names ps) /\ NoDup (map p_name ps) /\
+      AllP (fun kv => ustr_eqb (fst kv) t = true \/ exists p, In p ps /\ member_sh req kv p) props /\
+      (forall p, In p ps -> exists kv, In kv props /\ ustr_eqb (fst kv) t = false /\ wire_name p = Some (fst kv)).
+
+    (* one branch of a tagged oneOf against the variants *)
+    Definition branch_sh (tg : tagty) (vs : list variant) (deny : bool) (b : schema) : Prop :=
       match b with
-      | SObj _ _ _ _ _ _ _ _ _ _ _ _ bprops _ _ _ _ _ _ _ _ _ _ _ =>
-          match bprops with
-          | [(v, sc)] => exists vr, In vr vs /\ v_raw vr = v /\ payload_sh sc deny (v_det vr)
-          | _ => forall raws, xsimple b = Some raws ->
-                 forall x, In x raws -> exists vr, In vr vs /\ v_raw vr = x /\ v_det vr = VSimple
+      | SObj _ _ _ _ _ _ _ _ _ _ _ _ bprops breq bap _ _ _ _ _ _ _ _ _ =>
+          match tg with
+          | TagExternal =>
+              match bprops with
+              | [(v, sc)] => exists vr, In vr vs /\ v_raw vr = v /\ payload_sh sc deny (v_det vr)
+              | _ => forall raws, xsimple b = Some raws ->
+                     forall x, In x raws -> exists vr, In vr vs /\ v_raw vr = x /\ v_det vr = VSimple
+              end
+          | TagAdjacent t c =>
+              match bprops with
+              | [(k1, s1)] => forall x, cstr s1 = Some x -> exists vr, In vr vs /\ v_raw vr = x /\ v_det vr = VSimple
+              | [(k1, s1); (k2, s2)] =>
+                  if ustr_eqb k1 t
+                  then forall x, cstr s1 = Some x -> exists vr, In vr vs /\ v_raw vr = x /\ payload_sh s2 deny (v_det vr)
+                  else forall x, cstr s2 = Some x -> exists vr, In vr vs /\ v_raw vr = x /\ payload_sh s1 deny (v_det vr)
+              | _ => True
+              end
+          | TagInternal t =>
+              forall x, match assoc t bprops with Some ts => cstr ts | None => None end = Some x ->
+              exists vr, In vr vs /\ v_raw vr = x /\
+                match bprops with
+                | [_] => v_det vr = VSimple
+                | _ => exists ps, v_det vr = VStruct ps /\ struct_sh_skip t bprops breq ps /\
+                                  deny = match bap with Some (SBool false) => true | _ => false end
+                end
+          | TagUntagged => True
           end
       | SBool _ => True
       end.
@@ -127,10 +154,10 @@ Section Shape.
           | Some bs =>
               exists n vs deny bes names ids,
                 has t (DEnum n None tg vs deny bes) /\
-                xall_names bs = Some names /\ NoDup names /\
+                variant_names tg bs = Some names /\ NoDup names /\
                 Sanitize.variant_idents cls names = Sanitize.Ok ids /\
                 map v_raw vs = names /\ map v_ident vs = ids /\
-                AllP (branch_sh vs deny) bs
+                AllP (branch_sh tg vs deny) bs
           | None => False
           end
       | KBool => has t DBoolean
@@ -203,16 +230,29 @@ Section Ok.
 
   Definition not_option (e : entry) : Prop := match e_det e with DOption _ => False | _ => True end.
 
+  Definition vdet_ok (look : id -> option entry) (vd : vdetails) : Prop :=
+    match vd with
+    | VSimple => True
+    | VItem t => idok look t
+    | VTuple ts => forall t, In t ts -> idok look t
+    | VStruct ps => RoundTrip.props_ok ps = true /\ forall p, In p ps -> idok look (p_ty p)
+    end.
+
   Definition det_ok (look : id -> option entry) (d : details) : Prop :=
     match d with
     | DStruct _ _ ps _ => RoundTrip.props_ok ps = true /\ forall p, In p ps -> idok look (p_ty p)
-    | DEnum _ _ TagExternal vs _ _ =>
-        forall v, In v vs ->
-        match v_det v with
-        | VSimple => True
-        | VItem t => idok look t
-        | VTuple ts => forall t, In t ts -> idok look t
-        | VStruct ps => RoundTrip.props_ok ps = true /\ forall p, In p ps -> idok look (p_ty p)
+    | DEnum _ _ tag vs _ _ =>
+        match tag with
+        | TagExternal => forall v, In v vs -> vdet_ok look (v_det v)
+        | TagAdjacent tg ct => ustr_eqb tg ct = false /\ forall v, In v vs -> vdet_ok look (v_det v)
+        | TagInternal tg =>
+            forall v, In v vs ->
+            match v_det v with
+            | VSimple => True
+            | VStruct ps => vdet_ok look (VStruct ps) /\ mem_ustr tg (wire_names ps) = false
+            | _ => False
+            end
+        | TagUntagged => False
         end
     | DOption t => idok look t /\ forall e, look t = Some e -> not_option e
     | DVec t | DSet t | DArray t _ => idok look t
@@ -249,10 +289,15 @@ Section Ok.
     intros Hm Hdef.
     destruct d as [? ? tag ? ? ?|? ? ? ?|? ? t c|? ? ?|t|?|t|? ?|t|t ?|ts| | |?|?| | |?];
       cbn [det_ok]; try exact (fun H => H).
-    - destruct tag; try exact (fun H => H). intros H v Hv. specialize (H v Hv).
-      destruct (v_det v) as [|t|ts|ps]; [exact I|eapply idok_mono; eassumption| |].
-      + intros t Ht. eapply idok_mono; [exact Hm|exact (H t Ht)].
-      + destruct H as [H1 H2]. split; [exact H1|]. intros p Hp. eapply idok_mono; [exact Hm|exact (H2 p Hp)].
+    - assert (Hvm : forall vd, vdet_ok look vd -> vdet_ok look' vd).
+      { intros [|t|ts|ps]; cbn [vdet_ok]; [exact (fun H => H)|apply idok_mono; exact Hm| |].
+        - intros H t Ht. eapply idok_mono; [exact Hm|exact (H t Ht)].
+        - intros [H1 H2]. split; [exact H1|]. intros p Hp. eapply idok_mono; [exact Hm|exact (H2 p Hp)]. }
+      destruct tag as [|tg|tg ct|]; try exact (fun H => H).
+      + intros H v Hv. exact (Hvm _ (H v Hv)).
+      + intros H v Hv. specialize (H v Hv). destruct (v_det v) as [|t|ts|ps]; try exact H.
+        destruct H as [H1 H2]. split; [exact (Hvm _ H1)|exact H2].
+      + intros [H0 H]. split; [exact H0|]. intros v Hv. exact (Hvm _ (H v Hv)).
     - intros [H1 H2]. split; [exact H1|]. intros p Hp. eapply idok_mono; [exact Hm|apply H2; exact Hp].
     - destruct c; try exact (fun H => H); apply idok_mono; exact Hm.
     - intros [H1 H2]. split; [eapply idok_mono; eassumption|].
@@ -816,11 +861,10 @@ Section ShapeMain.
   Qed.
 
   (* the uniformity condition of payloads_ok: every struct payload carries the enum's flag *)
-  Lemma payloads_uniform bs sc d :
-    payloads_ok bs = true -> In sc (xpayloads bs) -> struct_deny sc = Some d -> d = bs_deny bs.
+  Lemma payloads_uniform_l L sc d :
+    payloads_ok_l L = true -> In sc L -> struct_deny sc = Some d -> d = existsb own_deny L.
   Proof.
-    unfold payloads_ok, bs_deny. intros H Hin Hsd. apply andb_true_iff in H. destruct H as [_ H].
-    set (L := xpayloads bs) in *. clearbody L.
+    unfold payloads_ok_l. intros H Hin Hsd. apply andb_true_iff in H. destruct H as [_ H].
     assert (Hall : forall d0 r, flat_map (fun sc => match struct_deny sc with Some d => [d] | None => [] end) L = d0 :: r ->
                    forallb (Bool.eqb d0) r = true -> forall sc' d', In sc' L -> struct_deny sc' = Some d' -> d' = d0).
     { intros d0 r HL Hr sc' d' Hin' Hsd'.
@@ -846,6 +890,20 @@ Section ShapeMain.
         pose proof (Hu sc' true Hin' Hsd'). discriminate.
   Qed.
 
+  Lemma payloads_uniform bs sc d :
+    payloads_ok bs = true -> In sc (xpayloads bs) -> struct_deny sc = Some d -> d = bs_deny bs.
+  Proof. exact (payloads_uniform_l (xpayloads bs) sc d). Qed.
+
+  Lemma variant_idents_nodup names ids : Sanitize.variant_idents cls names = Sanitize.Ok ids -> NoDup names.
+  Proof.
+    intro H.
+    assert (Hex : exists f : ustring -> ustring, NoDup (map f names)).
+    { unfold Sanitize.variant_idents in H. cbv zeta in H.
+      repeat match type of H with context [if ?c then _ else _] => destruct c eqn:? end; try discriminate H;
+        eexists; apply unique_true_iff; eassumption. }
+    destruct Hex as (f & Hf). exact (NoDup_map_inv _ _ Hf).
+  Qed.
+
   Lemma combine_variants (rvs : list (ustring * vdetails)) : forall ids, length ids = length rvs ->
     let vs := map (fun p => mkVariant (fst (fst p)) (snd p) (snd (fst p))) (combine rvs ids) in
     map v_raw vs = map fst rvs /\ map v_ident vs = ids /\
@@ -862,13 +920,303 @@ Section ShapeMain.
       + intros vr [<-|H]; [left; reflexivity|right; exact (H4 vr H)].
   Qed.
 
+  (* ---------------------------------------------------------------- members of a struct / struct variant *)
+  Lemma members_facts req props ps sa :
+    Forall2 (mrel req sa) props ps -> NoDup (map fst props) ->
+    Sanitize.unique (map p_name (sort_props ps)) = true ->
+    RoundTrip.props_ok (sort_props ps) = true /\
+    (forall p, In p (sort_props ps) -> idok nD (lk sa) (p_ty p)) /\
+    wire_names ps = map fst props /\
+    forall T, ext sa T -> DefsNamed T -> struct_sh cls T (shape cls D T) props req (sort_props ps).
+  Proof.
+    intros HR Hks Hun.
+    assert (Hperm : Permutation (sort_props ps) ps) by apply sort_props_perm.
+    assert (Hwn : wire_names ps = map fst props).
+    { apply wire_names_map. eapply Forall2_weaken; [|exact HR]. intros x y [H _]. exact H. }
+    assert (Hndw : NoDup (wire_names (sort_props ps))).
+    { eapply Permutation_NoDup; [apply Permutation_sym, wire_names_perm, Hperm|]. rewrite Hwn. exact Hks. }
+    assert (Hndn : NoDup (map p_name (sort_props ps))) by (apply unique_true_iff; exact Hun).
+    assert (Hin' : forall p, In p (sort_props ps) -> In p ps) by (intros p Hp; eapply Permutation_in; eassumption).
+    split; [|split; [|split; [exact Hwn|]]].
+    - unfold RoundTrip.props_ok. rewrite (rt_nodup_ustr_NoDup _ Hndn), (rt_nodup_ustr_NoDup _ Hndw), !andb_true_r.
+      apply forallb_forall. intros p Hp. destruct (Forall2_In_r _ _ _ _ HR (Hin' p Hp)) as (kv & _ & Hwp & _).
+      unfold RoundTrip.no_flatten. unfold wire_name in Hwp. destruct (p_rename p); [reflexivity|reflexivity|discriminate].
+    - intros p Hp. destruct (Forall2_In_r _ _ _ _ HR (Hin' p Hp)) as (kv & _ & _ & Hid & _). exact Hid.
+    - intros T He Hp. split; [exact Hndw|]. split; [exact Hndn|]. split.
+      + apply AllP_In. intros kv Hkv. destruct (Forall2_In_l _ _ _ _ HR Hkv) as (p & Hpin & _ & _ & HM).
+        exists p. split; [eapply Permutation_in; [apply Permutation_sym; exact Hperm|exact Hpin]|]. exact (HM T He Hp).
+      + intros p Hpin. destruct (Forall2_In_r _ _ _ _ HR (Hin' p Hpin)) as (kv & Hkv & Hwp & _).
+        exists kv. split; assumption.
+  Qed.
+
+  (* ---------------------------------------------------------------- assembling a tagged enum *)
+  Definition tag_det_ok (tg : tagty) (rvs : list (ustring * vdetails)) : Prop :=
+    match tg with
+    | TagExternal => True
+    | TagAdjacent t c => ustr_eqb t c = false
+    | TagInternal t =>
+        forall rv, In rv rvs ->
+        match snd rv with
+        | VSimple => True
+        | VStruct ps => mem_ustr t (wire_names ps) = false
+        | _ => False
+        end
+    | TagUntagged => False
+    end.
+
+  Lemma tagged_kspost items props req ap bs tg nm' n s0 sa rvs deny names ids te :
+    type_name cls nm' = Some n -> variant_names tg bs = Some names ->
+    Sanitize.variant_idents cls names = Sanitize.Ok ids -> map fst rvs = names ->
+    wf sa -> frame s0 sa -> names_sub s0 sa (one_names cls tg nm' bs) -> ents_ok nD (lk sa) ->
+    (forall rv, In rv rvs -> vd_ok (lk sa) (snd rv)) ->
+    tag_det_ok tg rvs ->
+    (forall T, ext sa T -> DefsNamed T -> forall vs,
+       (forall x vd, In (x, vd) rvs -> exists vr, In vr vs /\ v_raw vr = x /\ v_det vr = vd) ->
+       AllP (branch_sh cls T (shape cls D T) tg vs deny) bs) ->
+    mk_tagged cls n tg rvs deny = Some te ->
+    KSPost items props req ap (Some bs) (KOne tg) nm' s0 te sa.
+  Proof.
+    intros Hn Hnames Hv Hfst Hwa Hfa Hnsa Hga Hvda Htd HBr Hmk.
+    unfold mk_tagged in Hmk. rewrite Hfst, Hv in Hmk. injection Hmk as <-.
+    assert (Hlen : length ids = length rvs).
+    { rewrite (variant_idents_length cls names ids Hv), <- Hfst. apply map_length. }
+    destruct (combine_variants rvs ids Hlen) as (Hraw & Hident & Hfind & Hback). cbn zeta in *.
+    set (vs := map (fun p => mkVariant (fst (fst p)) (snd p) (snd (fst p))) (combine rvs ids)) in *.
+    split; [exact Hwa|exact Hfa|cbn [own_names]; rewrite Hn; reflexivity|cbn [sub_names]; exact Hnsa|exact Hga| |exact I|exact I
+           |intros T _ _; exact I|].
+    - cbn [te_ok det_ok].
+      assert (Hvr : forall vr, In vr vs -> vdet_ok nD (lk sa) (v_det vr)).
+      { intros vr Hvr. exact (Hvda _ (Hback vr Hvr)). }
+      destruct tg as [|t|t c|]; cbn [tag_det_ok] in Htd.
+      + exact Hvr.
+      + intros vr Hin. pose proof (Htd _ (Hback vr Hin)) as H1. pose proof (Hvr vr Hin) as H2. cbn [snd] in H1.
+        destruct (v_det vr); try exact H1. split; [exact H2|exact H1].
+      + split; [exact Htd|exact Hvr].
+      + exact Htd.
+    - intros T He Hp t Hr. cbn [realizes] in Hr. apply get_det_of in Hr. cbn [kshape].
+      exists n, vs, deny, (if forallb (fun p => match snd p with VSimple => true | _ => false end) rvs
+                           then [AllSimpleVariants] else []), names, ids.
+      split; [exact Hr|]. split; [exact Hnames|]. split; [exact (variant_idents_nodup names ids Hv)|]. split; [exact Hv|].
+      split; [exact (eq_trans Hraw Hfst)|]. split; [exact Hident|].
+      exact (HBr T He Hp vs Hfind).
+  Qed.
+
+  (* ---------------------------------------------------------------- adjacently tagged *)
+  Definition arv_rel (t c : ustring) (T : space) (rvs : list (ustring * vdetails)) (b : schema) : Prop :=
+    forall x, assoc t (sch_props b) = Some (xsimple_sch [JStr x]) ->
+      (sch_props b = [(t, xsimple_sch [JStr x])] -> In (x, VSimple) rvs) /\
+      (forall sc, assoc c (sch_props b) = Some sc ->
+         exists vd, In (x, vd) rvs /\ payload_sh cls T (shape cls D T) sc (own_deny sc) vd).
+
+  Lemma arv_rel_mono t c T rvs rvs' b : incl rvs rvs' -> arv_rel t c T rvs b -> arv_rel t c T rvs' b.
+  Proof.
+    intros Hi H x Hx. destruct (H x Hx) as [H1 H2]. split.
+    - intro Hp. apply Hi. exact (H1 Hp).
+    - intros sc Hsc. destruct (H2 sc Hsc) as (vd & Hin & Hps). exists vd. split; [apply Hi; exact Hin|exact Hps].
+  Qed.
+
+  Lemma contents_cons c b r : contents c (b :: r) = (match assoc c (sch_props b) with Some sc => [sc] | None => [] end) ++ contents c r.
+  Proof. reflexivity. Qed.
+
+  Lemma conv_abranches_shape nm t c : ustr_eqb t c = false -> forall bs,
+    Forall (PropP SP) bs -> forallb (adj_cond t c) bs = true -> one_frags cls D (TagAdjacent t c) bs = true ->
+    (forall sc, In sc (contents c bs) -> classify_s sc <> Some (false, KNull)) ->
+    forall s0 rvs dn s1, conv_abranches cvf nm t c bs s0 = Some (rvs, dn, s1) -> wf s0 -> nD < st_next s0 ->
+    ents_ok nD (lk s0) ->
+    NoDup (one_names cls (TagAdjacent t c) nm bs) ->
+    (forall n, In n (one_names cls (TagAdjacent t c) nm bs) -> ~ In n (nkeys s0)) ->
+    wf s1 /\ frame s0 s1 /\ names_sub s0 s1 (one_names cls (TagAdjacent t c) nm bs) /\ ents_ok nD (lk s1) /\
+    (forall rv, In rv rvs -> vd_ok (lk s1) (snd rv)) /\ dn = existsb own_deny (contents c bs) /\
+    forall T, ext s1 T -> DefsNamed T -> AllP (arv_rel t c T rvs) bs.
+  Proof.
+    intros Htc. induction bs as [|b r IH]; intros HP Hc Hf Hnn s0 rvs dn s1 Hcv Hw Hnx Hg Hnd Hfr.
+    - cbn in Hcv. injection Hcv as <- <- <-.
+      split; [exact Hw|]. split; [apply frame_refl|]. split; [apply names_sub_refl|]. split; [exact Hg|].
+      split; [intros rv []|]. split; [reflexivity|]. intros T _ _. exact I.
+    - cbn [forallb] in Hc. apply andb_true_iff in Hc. destruct Hc as [Hc1 Hc2].
+      rewrite one_frags_cons in Hf. apply andb_true_iff in Hf. destruct Hf as [Hf1 Hf2].
+      rewrite one_names_cons in Hnd, Hfr. rewrite contents_cons in Hnn.
+      cbn [conv_abranches] in Hcv.
+      destruct (conv_avariant_cases cls D nm t c b s0 Htc Hc1) as (x & Hax & [[Hv Hlone]|(sc & Hin & Hac & Hfold & Hnm & Hv)]);
+        rewrite Hv in Hcv.
+      + (* the tag alone: a unit variant *)
+        destruct (conv_abranches cvf nm t c r s0) as [[[vs2 d2] s2]|] eqn:Hrr; [|discriminate].
+        injection Hcv as <- <- <-.
+        assert (Hnoc : assoc c (sch_props b) = None).
+        { rewrite Hlone. cbn [assoc]. rewrite (ueqb_sym c t), Htc. reflexivity. }
+        rewrite Hnoc in Hnn. cbn [app] in Hnn.
+        assert (Hnil : branch_fold cls (TagAdjacent t c) nm (names_of cls) (@app ustring) [] b = []).
+        { destruct b as [|bty bfmt benum bcst bnv bsv bik bitems bai bmni bmxi buq bprops breq bap bmnp bmxp ballo banyo boneo bno bref bdflt btitle];
+            [reflexivity|]. cbn [sch_props] in Hlone. subst bprops. reflexivity. }
+        rewrite Hnil in Hnd, Hfr. cbn [app] in Hnd, Hfr.
+        destruct (IH (Forall_inv_tail HP) Hc2 Hf2 Hnn s0 vs2 d2 s2 Hrr Hw Hnx Hg Hnd Hfr)
+          as (Hw2 & Hfr2 & Hns2 & Hg2 & Hvd2 & Hd2 & HR2).
+        split; [exact Hw2|]. split; [exact Hfr2|]. split; [rewrite one_names_cons, Hnil; exact Hns2|]. split; [exact Hg2|].
+        split; [|split].
+        * intros rv [<-|Hin]; [exact I|exact (Hvd2 rv Hin)].
+        * rewrite contents_cons, Hnoc. exact Hd2.
+        * intros T He Hp. cbn [AllP]. split.
+          -- intros x' Hx'. rewrite Hax in Hx'. injection Hx' as <-. split; [intros _; left; reflexivity|].
+             intros sc Hsc. rewrite Hnoc in Hsc. discriminate.
+          -- apply AllP_In. intros b' Hb'. eapply arv_rel_mono; [apply incl_tl, incl_refl|].
+             exact (proj1 (AllP_In _ _) (HR2 T He Hp) b' Hb').
+      + (* tag + content *)
+        rewrite Hfold in Hf1. rewrite (Hnm nm) in Hnd, Hfr. rewrite Hac in Hnn. cbn [app] in Hnn.
+        destruct (conv_xvar cvf nm _ sc s0) as [[[vd deny] sa]|] eqn:Hx; [|discriminate].
+        destruct (conv_abranches cvf nm t c r sa) as [[[vs2 d2] s2]|] eqn:Hrr; [|discriminate].
+        injection Hcv as <- <- <-.
+        destruct (conv_xvar_shape nm _ sc (Forall_inv HP c sc Hin) Hf1 (Hnn sc (or_introl eq_refl))
+                    s0 vd deny sa Hx Hw Hnx Hg (NoDup_app_l _ _ Hnd))
+          as (Hwa & Hfa & Hnsa & Hga & Hvda & Hda & HSa).
+        { intros n Hin'. apply Hfr. apply in_or_app. left. exact Hin'. }
+        assert (Hnxa : nD < st_next sa) by (destruct Hfa as [Hx' _]; lia).
+        destruct (IH (Forall_inv_tail HP) Hc2 Hf2 (fun sc' H => Hnn sc' (or_intror H)) sa vs2 d2 s2 Hrr Hwa Hnxa Hga
+                    (NoDup_app_r _ _ Hnd))
+          as (Hw2 & Hfr2 & Hns2 & Hg2 & Hvd2 & Hd2 & HR2).
+        { intros n Hin1 Hin2. destruct (Hnsa n Hin2) as [H|H].
+          - apply (Hfr n); [apply in_or_app; right; exact Hin1|exact H].
+          - exact (NoDup_app_disj _ _ n Hnd H Hin1). }
+        split; [exact Hw2|]. split; [eapply frame_trans; eassumption|]. split.
+        * rewrite one_names_cons, (Hnm nm). eapply names_sub_trans; eassumption.
+        * split; [exact Hg2|]. split; [|split].
+          -- intros rv [<-|Hin']; [|exact (Hvd2 rv Hin')]. cbn [snd].
+             eapply vd_ok_mono; [exact (frame_mono sa s2 Hwa Hfr2)|exact Hvda].
+          -- rewrite contents_cons, Hac. cbn [app existsb]. rewrite Hda. f_equal. exact Hd2.
+          -- intros T He Hp. cbn [AllP]. split.
+             ++ intros x' Hx'. rewrite Hax in Hx'. injection Hx' as <-. split.
+                ** intro Hl. exfalso. rewrite Hl in Hin. destruct Hin as [Hin|[]]. injection Hin as Hin _.
+                   subst c. rewrite ustr_eqb_refl in Htc. discriminate.
+                ** intros sc' Hsc'. rewrite Hac in Hsc'. injection Hsc' as <-. exists vd. split; [left; reflexivity|].
+                   apply HSa; [eapply ext_frame; eassumption|exact Hp].
+             ++ apply AllP_In. intros b' Hb'. eapply arv_rel_mono; [apply incl_tl, incl_refl|].
+                exact (proj1 (AllP_In _ _) (HR2 T He Hp) b' Hb').
+  Qed.
+
+  (* ---------------------------------------------------------------- internally tagged *)
+  Definition irv_rel (t : ustring) (T : space) (rvs : list (ustring * vdetails)) (b : schema) : Prop :=
+    forall x, assoc t (sch_props b) = Some (xsimple_sch [JStr x]) ->
+      (sch_props b = [(t, xsimple_sch [JStr x])] -> In (x, VSimple) rvs) /\
+      ((forall k1 s1, sch_props b <> [(k1, s1)]) ->
+         exists ps, In (x, VStruct ps) rvs /\
+                    struct_sh_skip cls T (shape cls D T) t (sch_props b) (sch_required b) ps).
+
+  Lemma irv_rel_mono t T rvs rvs' b : incl rvs rvs' -> irv_rel t T rvs b -> irv_rel t T rvs' b.
+  Proof.
+    intros Hi H x Hx. destruct (H x Hx) as [H1 H2]. split.
+    - intro Hp. apply Hi. exact (H1 Hp).
+    - intros Hn. destruct (H2 Hn) as (ps & Hin & Hs). exists ps. split; [apply Hi; exact Hin|exact Hs].
+  Qed.
+
+  Lemma struct_sh_rest T t props req ps :
+    struct_sh cls T (shape cls D T) (rest_of t props) req ps -> struct_sh_skip cls T (shape cls D T) t props req ps.
+  Proof.
+    intros (H1 & H2 & H3 & H4). split; [exact H1|]. split; [exact H2|]. split.
+    - apply AllP_In. intros kv Hkv. destruct (ustr_eqb (fst kv) t) eqn:E; [left; reflexivity|right].
+      apply (proj1 (AllP_In _ _) H3 kv). unfold rest_of. apply filter_In. split; [exact Hkv|]. rewrite E. reflexivity.
+    - intros p Hp. destruct (H4 p Hp) as (kv & Hkv & Hw). unfold rest_of in Hkv. apply filter_In in Hkv.
+      destruct Hkv as [Hkv E]. apply negb_true_iff in E. exists kv. repeat split; assumption.
+  Qed.
+
+  Lemma rest_keys_nodup t props : keys_sorted (map fst props) = true -> NoDup (map fst (rest_of t props)).
+  Proof.
+    intro H. apply keys_sorted_NoDup in H. revert H. unfold rest_of.
+    induction props as [|[k s'] q IH]; intro H; [constructor|]. cbn [map fst] in H. inversion H as [|? ? Hni Hq]; subst.
+    cbn [filter fst]. destruct (negb (ustr_eqb k t)); [|exact (IH Hq)]. cbn [map fst]. constructor; [|exact (IH Hq)].
+    intro Hin. apply Hni. apply in_map_iff in Hin. destruct Hin as (x & Hx & Hxin). apply filter_In in Hxin.
+    apply in_map_iff. exists x. split; [exact Hx|exact (proj1 Hxin)].
+  Qed.
+
+  Lemma rest_no_tag t props : ~ In t (map fst (rest_of t props)).
+  Proof.
+    intro Hin. apply in_map_iff in Hin. destruct Hin as ([k s'] & Hk & Hin). cbn [fst] in Hk. subst k.
+    unfold rest_of in Hin. apply filter_In in Hin. destruct Hin as [_ E]. cbn [fst] in E. rewrite ustr_eqb_refl in E. discriminate.
+  Qed.
+
+  Lemma conv_ibranches_shape nm base t : name_opt nm = Some base -> forall bs,
+    Forall (PropP SP) bs -> forallb (int_cond cls t) bs = true -> one_frags cls D (TagInternal t) bs = true ->
+    forall s0 rvs s1, conv_ibranches cls cvf nm t bs s0 = Some (rvs, s1) -> wf s0 -> nD < st_next s0 ->
+    ents_ok nD (lk s0) ->
+    NoDup (one_names cls (TagInternal t) nm bs) ->
+    (forall n, In n (one_names cls (TagInternal t) nm bs) -> ~ In n (nkeys s0)) ->
+    wf s1 /\ frame s0 s1 /\ names_sub s0 s1 (one_names cls (TagInternal t) nm bs) /\ ents_ok nD (lk s1) /\
+    (forall rv, In rv rvs -> vd_ok (lk s1) (snd rv)) /\ tag_det_ok (TagInternal t) rvs /\
+    forall T, ext s1 T -> DefsNamed T -> AllP (irv_rel t T rvs) bs.
+  Proof.
+    intros Hb. induction bs as [|b r IH]; intros HP Hc Hf s0 rvs s1 Hcv Hw Hnx Hg Hnd Hfr.
+    - cbn in Hcv. injection Hcv as <- <-.
+      split; [exact Hw|]. split; [apply frame_refl|]. split; [apply names_sub_refl|]. split; [exact Hg|].
+      split; [intros rv []|]. split; [intros rv []|]. intros T _ _. exact I.
+    - cbn [forallb] in Hc. apply andb_true_iff in Hc. destruct Hc as [Hc1 Hc2].
+      rewrite one_frags_cons in Hf. apply andb_true_iff in Hf. destruct Hf as [Hf1 Hf2].
+      rewrite one_names_cons in Hnd, Hfr.
+      cbn [conv_ibranches] in Hcv.
+      destruct (conv_ivariant_cases cls D nm base t b s0 Hb Hc1)
+        as (props & req & closed & x & -> & Ha & Hreq & Hhas & Hks & Hun & Hopt & [[-> Hv]|[Hnl Hv]]); rewrite Hv in Hcv.
+      + (* the tag alone *)
+        destruct (conv_ibranches cls cvf nm t r s0) as [[vs2 s2]|] eqn:Hrr; [|discriminate].
+        injection Hcv as <- <-.
+        assert (Hnil : branch_fold cls (TagInternal t) nm (names_of cls) (@app ustring) [] (tbranch [(t, xsimple_sch [JStr x])] req closed) = []).
+        { cbn [branch_fold tbranch]. rewrite Hb. rewrite ustr_eqb_refl. reflexivity. }
+        rewrite Hnil in Hnd, Hfr. cbn [app] in Hnd, Hfr.
+        destruct (IH (Forall_inv_tail HP) Hc2 Hf2 s0 vs2 s2 Hrr Hw Hnx Hg Hnd Hfr)
+          as (Hw2 & Hfr2 & Hns2 & Hg2 & Hvd2 & Htd2 & HR2).
+        split; [exact Hw2|]. split; [exact Hfr2|]. split; [rewrite one_names_cons, Hnil; exact Hns2|]. split; [exact Hg2|].
+        split; [|split].
+        * intros rv [<-|Hin]; [exact I|exact (Hvd2 rv Hin)].
+        * intros rv [<-|Hin]; [exact I|exact (Htd2 rv Hin)].
+        * intros T He Hp. cbn [AllP]. split.
+          -- intros x' Hx'. cbn [sch_props tbranch] in *. rewrite Ha in Hx'. injection Hx' as <-.
+             split; [intros _; left; reflexivity|]. intros Hn. exfalso. exact (Hn _ _ eq_refl).
+          -- apply AllP_In. intros b' Hb'. eapply irv_rel_mono; [apply incl_tl, incl_refl|].
+             exact (proj1 (AllP_In _ _) (HR2 T He Hp) b' Hb').
+      + (* a struct variant *)
+        assert (Hfoldn : branch_fold cls (TagInternal t) nm (names_of cls) (@app ustring) [] (tbranch props req closed)
+                         = prop_names cls base (rest_of t props)).
+        { cbn [branch_fold tbranch]. rewrite Hb. apply (ifold_names cls t base props). }
+        cbn [branch_fold tbranch name_opt] in Hf1. rewrite (ifold_frag cls D t props) in Hf1.
+        rewrite Hfoldn in Hnd, Hfr.
+        assert (HPp : Forall (fun kv => SP (snd kv)) (rest_of t props)).
+        { apply Forall_forall. intros [k sc] Hin. unfold rest_of in Hin. apply filter_In in Hin.
+          exact (Forall_inv HP k sc (proj1 Hin)). }
+        destruct (conv_props cls cvf base req (rest_of t props) s0) as [[ps sa]|] eqn:Hcp; [|discriminate].
+        destruct (Sanitize.unique (map p_name (sort_props ps))) eqn:Hu; [|discriminate].
+        destruct (conv_ibranches cls cvf nm t r sa) as [[vs2 s2]|] eqn:Hrr; [|discriminate].
+        injection Hcv as <- <-.
+        destruct (conv_props_shape base req (rest_of t props) HPp Hf1 s0 ps sa Hcp Hw Hnx Hg (NoDup_app_l _ _ Hnd))
+          as (Hwa & Hfa & Hnsa & Hga & HR).
+        { intros n Hin. apply Hfr. apply in_or_app. left. exact Hin. }
+        destruct (members_facts req (rest_of t props) ps sa HR (rest_keys_nodup t props Hks) Hu) as (Hpok & Hpid & Hwn & HSS).
+        assert (Hnxa : nD < st_next sa) by (destruct Hfa as [Hx' _]; lia).
+        destruct (IH (Forall_inv_tail HP) Hc2 Hf2 sa vs2 s2 Hrr Hwa Hnxa Hga (NoDup_app_r _ _ Hnd))
+          as (Hw2 & Hfr2 & Hns2 & Hg2 & Hvd2 & Htd2 & HR2).
+        { intros n Hin1 Hin2. destruct (Hnsa n Hin2) as [H|H].
+          - apply (Hfr n); [apply in_or_app; right; exact Hin1|exact H].
+          - exact (NoDup_app_disj _ _ n Hnd H Hin1). }
+        assert (Hnot : mem_ustr t (wire_names (sort_props ps)) = false).
+        { destruct (mem_ustr t (wire_names (sort_props ps))) eqn:E; [|reflexivity]. exfalso.
+          apply mem_ustr_In in E. apply (rest_no_tag t props). rewrite <- Hwn.
+          eapply Permutation_in; [apply wire_names_perm, sort_props_perm|exact E]. }
+        split; [exact Hw2|]. split; [eapply frame_trans; eassumption|]. split.
+        * rewrite one_names_cons, Hfoldn. eapply names_sub_trans; eassumption.
+        * split; [exact Hg2|]. split; [|split].
+          -- intros rv [<-|Hin']; [|exact (Hvd2 rv Hin')]. cbn [snd vd_ok]. split; [exact Hpok|].
+             intros p Hp. eapply idok_mono; [exact (frame_mono sa s2 Hwa Hfr2)|exact (Hpid p Hp)].
+          -- intros rv [<-|Hin']; [exact Hnot|exact (Htd2 rv Hin')].
+          -- intros T He Hp. cbn [AllP]. split.
+             ++ intros x' Hx'. cbn [sch_props sch_required tbranch] in *. rewrite Ha in Hx'. injection Hx' as <-. split.
+                ** intro Hl. exfalso. exact (Hnl _ _ Hl).
+                ** intros _. exists (sort_props ps). split; [left; reflexivity|].
+                   apply struct_sh_rest. apply HSS; [eapply ext_frame; eassumption|exact Hp].
+             ++ apply AllP_In. intros b' Hb'. eapply irv_rel_mono; [apply incl_tl, incl_refl|].
+                exact (proj1 (AllP_In _ _) (HR2 T He Hp) b' Hb').
+  Qed.
+
   Lemma kind_shape items props req ap oneo k nm' s0 te s1
       (Hfk : frag_kind cls D k items props req ap oneo = true)
       (IHitems : Forall SP items)
       (IHprops : Forall (fun kv => SP (snd kv)) props)
       (IHap : OForall SP ap)
-      (IHone : OForall (Forall (PayP SP)) oneo)
-      (Hext : match k with KOne tg => tg = TagExternal /\ exists bs names, oneo = Some bs /\ xall_names bs = Some names /\ NoDup names | _ => True end) :
+      (IHone : OForall (Forall (PropP SP)) oneo) :
     conv_kind cls (ref_id D) cvf k nm' items props req ap oneo s0 = Some (te, s1) -> wf s0 -> nD < st_next s0 ->
     ents_ok nD (lk s0) ->
     NoDup (own_names cls nm' k ++ sub_names cls k nm' items props ap oneo) ->
@@ -1015,38 +1363,30 @@ Section ShapeMain.
       split; [apply wf_set_json; exact Hw|split; [cbn; lia|reflexivity]|reflexivity|intros n Hin; left; exact Hin
              |exact Hg|exact I|exact I|exact I|intros T _ _; exact I|].
       intros T He Hp t Hr. cbn [realizes] in Hr. exact (get_det_of _ _ _ _ Hr).
-    - (* KOne, externally tagged *)
-      destruct Hext as (-> & bs & names & -> & Hnames & Hndn).
-      destruct (type_name cls nm') as [n|] eqn:Hn; [|discriminate].
-      destruct (conv_xbranches cvf nm' bs s0) as [[[rvs deny] sa]|] eqn:Hcb; [|discriminate].
-      unfold mk_tagged in Hc.
-      pose proof (conv_xbranches_names cvf nm' bs names s0 rvs deny sa Hnames Hcb) as Hfst. rewrite Hfst in Hc.
-      destruct (Sanitize.variant_idents cls names) as [ids| |] eqn:Hv; try discriminate.
-      injection Hc as <- <-.
-      cbn [frag_kind variant_names] in Hfk. rewrite Hnames in Hfk.
-      apply andb_true_iff in Hfk. destruct Hfk as [Hfk _].
-      apply andb_true_iff in Hfk. destruct Hfk as [Hfk Hfr']. apply andb_true_iff in Hfk. destruct Hfk as [_ Hpay].
-      cbn [branches_ok] in Hpay.
-      cbn [own_names sub_names] in Hnd, Hfr. rewrite Hn in Hnd, Hfr.
-      assert (Hnn : forall sc, In sc (xpayloads bs) -> classify_s sc <> Some (false, KNull)).
-      { intros sc Hin Hcl. unfold payloads_ok in Hpay. apply andb_true_iff in Hpay. destruct Hpay as [Hpay _].
-        rewrite forallb_forall in Hpay. specialize (Hpay sc Hin). rewrite Hcl in Hpay. discriminate. }
-      destruct (conv_xbranches_shape nm' bs names IHone Hnames Hfr' Hnn s0 rvs deny sa Hcb Hw Hnx Hg (NoDup_app_r _ _ Hnd))
-        as (Hwa & Hfa & Hnsa & Hga & Hvda & Hda & HRa).
-      { intros x Hin. apply Hfr. apply in_or_app. right. exact Hin. }
-      assert (Hlen : length ids = length rvs).
-      { rewrite (variant_idents_length cls names ids Hv), <- Hfst. apply map_length. }
-      destruct (combine_variants rvs ids Hlen) as (Hraw & Hident & Hfind & Hback). cbn zeta in *.
-      set (vs := map (fun p => mkVariant (fst (fst p)) (snd p) (snd (fst p))) (combine rvs ids)) in *.
-      split; [exact Hwa|exact Hfa|cbn [own_names]; rewrite Hn; reflexivity|cbn [sub_names]; exact Hnsa|exact Hga| |exact I|exact I
-             |intros T _ _; exact I|].
-      + cbn [te_ok det_ok]. intros vr Hvr. pose proof (Hvda _ (Hback vr Hvr)) as Hok. cbn [snd] in Hok.
-        destruct (v_det vr); exact Hok.
-      + intros T He Hp t Hr. cbn [realizes] in Hr. apply get_det_of in Hr. cbn [kshape].
-        exists n, vs, deny, (if forallb (fun p => match snd p with VSimple => true | _ => false end) rvs
-                             then [AllSimpleVariants] else []), names, ids.
-        split; [exact Hr|]. split; [exact Hnames|]. split; [exact Hndn|]. split; [exact Hv|].
-        split; [exact (eq_trans Hraw Hfst)|]. split; [exact Hident|].
+    - (* KOne: a tagged enum *)
+      cbn [frag_kind] in Hfk. destruct oneo as [bs|]; [|discriminate]. cbn [OForall] in IHone.
+      apply andb_true_iff in Hfk. destruct Hfk as [Hfk Hpt].
+      apply andb_true_iff in Hfk. destruct Hfk as [Hfk Hfr']. apply andb_true_iff in Hfk. destruct Hfk as [Hid Hbok].
+      destruct (variant_names tg bs) as [names|] eqn:Hnames; [|discriminate].
+      destruct (Sanitize.variant_idents cls names) as [ids| |] eqn:Hv; try discriminate Hid.
+      cbn [own_names sub_names] in Hnd, Hfr.
+      destruct tg as [|t|t c|]; [| | |discriminate Hpt];
+        (destruct (type_name cls nm') as [n|] eqn:Hn; [|discriminate]).
+      + (* ---- externally tagged *)
+        cbn [variant_names] in Hnames. cbn [branches_ok] in Hbok. rename Hbok into Hpay.
+        destruct (conv_xbranches cvf nm' bs s0) as [[[rvs deny] sa]|] eqn:Hcb; [|discriminate].
+        pose proof (conv_xbranches_names cvf nm' bs names s0 rvs deny sa Hnames Hcb) as Hfst.
+        assert (Hnn : forall sc, In sc (xpayloads bs) -> classify_s sc <> Some (false, KNull)).
+        { intros sc Hin Hcl. unfold payloads_ok in Hpay. apply andb_true_iff in Hpay. destruct Hpay as [Hpay' _].
+          rewrite forallb_forall in Hpay'. specialize (Hpay' sc Hin). rewrite Hcl in Hpay'. discriminate. }
+        assert (IHone' : Forall (PayP SP) bs) by (eapply Forall_impl; [|exact IHone]; intros a0 Ha0; exact (PropP_PayP _ a0 Ha0)).
+        destruct (conv_xbranches_shape nm' bs names IHone' Hnames Hfr' Hnn s0 rvs deny sa Hcb Hw Hnx Hg (NoDup_app_r _ _ Hnd))
+          as (Hwa & Hfa & Hnsa & Hga & Hvda & Hda & HRa).
+        { intros x Hin. apply Hfr. apply in_or_app. right. exact Hin. }
+        destruct (mk_tagged cls n TagExternal rvs deny) as [te'|] eqn:Hmk; [|discriminate]. injection Hc as <- <-.
+        refine (tagged_kspost items props req ap bs TagExternal nm' n s0 sa rvs deny names ids te' Hn Hnames Hv Hfst
+                  Hwa Hfa Hnsa Hga Hvda I _ Hmk).
+        intros T He Hp vs Hfind.
         apply AllP_In. intros b Hb. pose proof (proj1 (AllP_In _ _) (HRa T He Hp) b Hb) as Hrel.
         destruct b as [|bty bfmt benum bcst bnv bsv bik bitems bai bmni bmxi buq bprops breq bap bmnp bmxp ballo banyo boneo bno bref bdflt btitle];
           [exact I|]. cbn [rv_rel branch_sh] in *.
@@ -1058,7 +1398,6 @@ Section ShapeMain.
         destruct bprops as [|[v sc] [|]]; try exact (Hsimple Hrel).
         destruct Hrel as (vd & Hin & Hpsh). destruct (Hfind v vd Hin) as (vr & Hvr & Hrw & Hdt).
         exists vr. split; [exact Hvr|]. split; [exact Hrw|]. rewrite Hdt.
-        (* the enum's flag is the struct payload's own flag *)
         assert (Hscin : In sc (xpayloads bs)).
         { clear - Hb Hnames. revert names Hnames Hb. induction bs as [|b0 r IH]; intros names Hn Hb; [destruct Hb|].
           destruct (xall_names_cons b0 r names Hn) as (l & rest & Hb0 & Hr & _).
@@ -1074,11 +1413,98 @@ Section ShapeMain.
         { rewrite Hda. apply (payloads_uniform bs sc (own_deny sc) Hpay Hscin).
           unfold struct_deny, own_deny, struct_deny. rewrite Hcl. reflexivity. }
         rewrite <- Hod. split; assumption.
+      + (* ---- internally tagged *)
+        cbn [branches_ok] in Hbok. apply andb_true_iff in Hbok. destruct Hbok as [Hbok Hunif].
+        change (forallb (int_cond cls t) bs = true) in Hbok.
+        destruct (conv_ibranches cls cvf nm' t bs s0) as [[rvs sa]|] eqn:Hcb; [|discriminate].
+        assert (Hnm : name_opt nm' <> None).
+        { unfold type_name in Hn. destruct (name_opt nm'); [discriminate|discriminate Hn]. }
+        destruct (name_opt nm') as [base|] eqn:Hbase; [|congruence].
+        pose proof (conv_ibranches_names cls D nm' t (eq_ind_r (fun o => o <> None) Hnm Hbase) bs names s0 rvs sa Hbok Hnames Hcb) as Hfst.
+        destruct (conv_ibranches_shape nm' base t Hbase bs IHone Hbok Hfr' s0 rvs sa Hcb Hw Hnx Hg (NoDup_app_r _ _ Hnd))
+          as (Hwa & Hfa & Hnsa & Hga & Hvda & Htd & HRa).
+        { intros x Hin. apply Hfr. apply in_or_app. right. exact Hin. }
+        match type of Hc with context [mk_tagged cls n (TagInternal t) rvs ?d] => set (deny := d) in * end.
+        destruct (mk_tagged cls n (TagInternal t) rvs deny) as [te'|] eqn:Hmk; [|discriminate]. injection Hc as <- <-.
+        refine (tagged_kspost items props req ap bs (TagInternal t) nm' n s0 sa rvs deny names ids te' Hn Hnames Hv Hfst
+                  Hwa Hfa Hnsa Hga Hvda Htd _ Hmk).
+        intros T He Hp vs Hfind.
+        apply AllP_In. intros b Hb. pose proof (proj1 (AllP_In _ _) (HRa T He Hp) b Hb) as Hrel.
+        rewrite forallb_forall in Hbok. pose proof (Hbok b Hb) as Hcb'.
+        destruct (int_branch_cases cls t b Hcb') as (bprops & breq & closed & x & -> & Ha & _).
+        cbn [branch_sh tbranch]. intros x' Hx'. rewrite Ha in Hx'. cbn [cstr xsimple_sch] in Hx'. injection Hx' as <-.
+        destruct (Hrel x Ha) as [H1 H2]. cbn [sch_props sch_required tbranch] in H1, H2.
+        destruct bprops as [|[k1 s1'] [|kv2 rest]].
+        * discriminate Ha.
+        * cbn [assoc] in Ha. destruct (ustr_eqb t k1) eqn:E; [|discriminate]. apply ustr_eqb_eq in E. subst k1.
+          injection Ha as ->. destruct (Hfind x VSimple (H1 eq_refl)) as (vr & Hvr & Hrw & Hdt).
+          exists vr. repeat split; assumption.
+        * destruct H2 as (ps & Hin & Hss); [intros k1' s1'' H; discriminate H|].
+          destruct (Hfind x (VStruct ps) Hin) as (vr & Hvr & Hrw & Hdt).
+          exists vr. split; [exact Hvr|]. split; [exact Hrw|]. exists ps. split; [exact Hdt|]. split; [exact Hss|].
+          (* the enum's flag is this branch's: the branches are all closed or all open *)
+          unfold deny. clear - Hunif Hb.
+          set (f := fun b0 : schema => match sch_additional_props b0 with Some (SBool false) => true | _ => false end) in *.
+          set (bb := tbranch ((k1, s1') :: kv2 :: rest) breq closed) in *.
+          transitivity (f bb); [|destruct closed; reflexivity].
+          destruct bs as [|b0 r]; [destruct Hb|].
+          assert (Hall : forall b', In b' (b0 :: r) -> f b' = f b0).
+          { intros b' [<-|Hb']; [reflexivity|]. rewrite forallb_forall in Hunif. symmetry. apply Bool.eqb_prop. exact (Hunif b' Hb'). }
+          rewrite (Hall _ Hb). destruct (f b0) eqn:E.
+          -- apply existsb_exists. exists b0. split; [left; reflexivity|exact E].
+          -- apply Bool.not_true_is_false. intro Hex. apply existsb_exists in Hex. destruct Hex as (b' & Hb' & Hfb').
+             rewrite (Hall b' Hb') in Hfb'. congruence.
+      + (* ---- adjacently tagged *)
+        cbn [branches_ok] in Hbok. apply andb_true_iff in Hbok. destruct Hbok as [Hbok Hpay].
+        apply andb_true_iff in Hbok. destruct Hbok as [Hbok Htc]. apply negb_true_iff in Htc.
+        change (forallb (adj_cond t c) bs = true) in Hbok.
+        destruct (conv_abranches cvf nm' t c bs s0) as [[[rvs deny] sa]|] eqn:Hcb; [|discriminate].
+        pose proof (conv_abranches_names cls D nm' t c Htc bs names s0 rvs deny sa Hbok Hnames Hcb) as Hfst.
+        assert (Hnn : forall sc, In sc (contents c bs) -> classify_s sc <> Some (false, KNull)).
+        { intros sc Hin Hcl. unfold payloads_ok_l in Hpay. apply andb_true_iff in Hpay. destruct Hpay as [Hpay' _].
+          rewrite forallb_forall in Hpay'. specialize (Hpay' sc Hin). rewrite Hcl in Hpay'. discriminate. }
+        destruct (conv_abranches_shape nm' t c Htc bs IHone Hbok Hfr' Hnn s0 rvs deny sa Hcb Hw Hnx Hg (NoDup_app_r _ _ Hnd))
+          as (Hwa & Hfa & Hnsa & Hga & Hvda & Hda & HRa).
+        { intros x Hin. apply Hfr. apply in_or_app. right. exact Hin. }
+        destruct (mk_tagged cls n (TagAdjacent t c) rvs deny) as [te'|] eqn:Hmk; [|discriminate]. injection Hc as <- <-.
+        refine (tagged_kspost items props req ap bs (TagAdjacent t c) nm' n s0 sa rvs deny names ids te' Hn Hnames Hv Hfst
+                  Hwa Hfa Hnsa Hga Hvda Htc _ Hmk).
+        intros T He Hp vs Hfind.
+        apply AllP_In. intros b Hb. pose proof (proj1 (AllP_In _ _) (HRa T He Hp) b Hb) as Hrel.
+        rewrite forallb_forall in Hbok. pose proof (Hbok b Hb) as Hcb'.
+        assert (Hcont : forall sc, assoc c (sch_props b) = Some sc -> In sc (contents c bs)).
+        { intros sc Hsc. clear - Hb Hsc. induction bs as [|b0 r IH]; [destruct Hb|]. rewrite contents_cons.
+          apply in_or_app. destruct Hb as [->|Hb]; [left; rewrite Hsc; left; reflexivity|right; exact (IH Hb)]. }
+        assert (Hpl : forall x sc, assoc t (sch_props b) = Some (xsimple_sch [JStr x]) -> assoc c (sch_props b) = Some sc ->
+                  exists vr, In vr vs /\ v_raw vr = x /\ payload_sh cls T (shape cls D T) sc deny (v_det vr)).
+        { intros x sc Hax Hac. destruct (Hrel x Hax) as [_ H2]. destruct (H2 sc Hac) as (vd & Hin & Hpsh).
+          destruct (Hfind x vd Hin) as (vr & Hvr & Hrw & Hdt). exists vr. split; [exact Hvr|]. split; [exact Hrw|].
+          rewrite Hdt. destruct vd as [|t'|ts|ps]; cbn [payload_sh] in *; try exact Hpsh.
+          destruct Hpsh as [Hcl Hss].
+          assert (Hod : own_deny sc = deny).
+          { rewrite Hda. apply (payloads_uniform_l (contents c bs) sc (own_deny sc) Hpay (Hcont sc Hac)).
+            unfold struct_deny, own_deny, struct_deny. rewrite Hcl. reflexivity. }
+          rewrite <- Hod. split; assumption. }
+        destruct (adj_branch_cases t c b Htc Hcb') as (breq & x & _ & [->|[(_ & sc & ->)|(_ & sc & ->)]]);
+          cbn [branch_sh tbranch]; cbn [sch_props tbranch assoc] in Hpl.
+        * intros x' Hx'. cbn [cstr xsimple_sch] in Hx'. injection Hx' as <-.
+          assert (Hax : assoc t (sch_props (tbranch [(t, xsimple_sch [JStr x])] breq true)) = Some (xsimple_sch [JStr x])).
+          { cbn [sch_props tbranch assoc]. rewrite ustr_eqb_refl. reflexivity. }
+          destruct (Hrel x Hax) as [H1 _].
+          destruct (Hfind x VSimple (H1 eq_refl)) as (vr & Hvr & Hrw & Hdt). exists vr. repeat split; assumption.
+        * rewrite ustr_eqb_refl. intros x' Hx'. cbn [cstr xsimple_sch] in Hx'. injection Hx' as <-.
+          apply (Hpl x sc).
+          -- rewrite ustr_eqb_refl. reflexivity.
+          -- rewrite (ueqb_sym c t), Htc, ustr_eqb_refl. reflexivity.
+        * rewrite (ueqb_sym c t), Htc. intros x' Hx'. cbn [cstr xsimple_sch] in Hx'. injection Hx' as <-.
+          apply (Hpl x sc).
+          -- rewrite Htc, ustr_eqb_refl. reflexivity.
+          -- rewrite ustr_eqb_refl. reflexivity.
   Qed.
 
   Lemma conv_SP : forall s, SP s.
   Proof.
-    apply schema_ind_x.
+    apply schema_ind_p.
     - intros b Hf. discriminate Hf.
     - intros ty fmt enum cst nv sv ik items ai mni mxi uq props req ap mnp mxp allo anyo oneo no ref dflt title
              IHitems IHprops IHap IHone.
@@ -1091,25 +1517,11 @@ Section ShapeMain.
                      sub_names cls k (if nl then inner_name nm else nm) items props ap oneo)) in Hnd.
       change (forall n, In n (own_names cls (if nl then inner_name nm else nm) k ++
                      sub_names cls k (if nl then inner_name nm else nm) items props ap oneo) -> ~ In n (nkeys s0)) in Hfr.
-      assert (Hext : match k with
-                     | KOne tg => tg = TagExternal /\ exists bs names, oneo = Some bs /\ xall_names bs = Some names /\ NoDup names
-                     | _ => True end).
-      { destruct k; try exact I. destruct Hone as (_ & bs & ->).
-        pose proof Hcl as Hcases. apply classify_cases in Hcases.
-        destruct Hcases as [(l & tt & _ & _ & _ & Hk)|(_ & _ & _ & _ & _ & _ & _ & _ & _ & _ & _ & _ & _ & [(r & _ & Hk)|[(_ & Hk)|(bs' & tg' & Hbs & _ & Hk & Hok)]])];
-          try discriminate Hk.
-        - apply kind_of_type_inv in Hk. destruct Hk as (_ & _ & _ & _ & _ & _ & _ & []).
-        - injection Hk as ->. injection Hbs as <-.
-          assert (Htg : tg' = TagExternal).
-          { clear - Hf. cbn [frag_kind] in Hf. apply andb_true_iff in Hf. destruct Hf as [_ Hp].
-            destruct tg'; try discriminate Hp. reflexivity. }
-          subst tg'. destruct (one_kind_external bs Hok) as (names & Hn & Hndn).
-          split; [reflexivity|]. exists bs, names. repeat split; assumption. }
       destruct nl; cbn [conv_node] in Hc.
       + destruct (conv_kind cls (ref_id D) cvf k (inner_name nm) items props req ap oneo s0) as [[te' s1']|] eqn:Hck;
           [|discriminate].
         destruct (assign te' s1') as [i s2] eqn:Ha. injection Hc as <- <-.
-        destruct (kind_shape items props req ap oneo k (inner_name nm) s0 te' s1' Hf IHitems IHprops IHap IHone Hext Hck Hw Hnx Hg Hnd Hfr)
+        destruct (kind_shape items props req ap oneo k (inner_name nm) s0 te' s1' Hf IHitems IHprops IHap IHone Hck Hw Hnx Hg Hnd Hfr)
           as [Hw1 Hf1 Hown Hns Hg1 Hte1 Hno _ _ HS].
         assert (Hfresh : forall n, det_name te' = Some n -> ~ In n (nkeys s1')).
         { intros n Hn Hin. unfold own_of in Hown. rewrite Hn in Hown.
@@ -1132,7 +1544,7 @@ Section ShapeMain.
         * intros T He Hp t Hr. cbn [realizes] in Hr. apply get_det_of in Hr. cbn [shape]. rewrite Hcl.
           exists i. split; [exact Hr|].
           apply (HS T (ext_frame _ _ T Hw1 Hf2 He) Hp i (realizes_ext _ _ _ _ Hr2 He)).
-      + destruct (kind_shape items props req ap oneo k nm s0 te s1 Hf IHitems IHprops IHap IHone Hext Hc Hw Hnx Hg Hnd Hfr)
+      + destruct (kind_shape items props req ap oneo k nm s0 te s1 Hf IHitems IHprops IHap IHone Hc Hw Hnx Hg Hnd Hfr)
           as [Hw1 Hf1 Hown Hns Hg1 Hte1 Hno Hkk Hpy HS].
         split; [exact Hw1|exact Hf1| |exact Hg1|exact Hte1| | |].
         * eexists. split; [cbn [names_of]; rewrite Hcl, <- Hown; reflexivity|exact Hns].
